@@ -144,7 +144,8 @@ def sameEvent (it : Item) (ev : EvStreamSpec.SelEvent) : Bool :=
   | .ok (.records p), .records q => p.getD [] == q
   | .ok (.stats d), .stats xml => EvStreamSpec.readCounters EvStreamSpec.tStats xml == some (d.map toCounters)
   | .ok (.progress d), .progress xml => EvStreamSpec.readCounters EvStreamSpec.tProgress xml == some (d.map toCounters)
-  | .error e, .error c m => e.code == c && e.message.getD [] == m
+  | .error e, .error c m =>
+    EvStreamSpec.expectedHeaderText e.code == some c && EvStreamSpec.expectedHeaderText (e.message.getD []) == some m
   | _, _ => false
 
 /-- index of the first position where the two lists differ -/
